@@ -106,7 +106,8 @@ def unpack_attrs(a):
         return a
     new_attrs={}
     attr_ref = yaml.load(a[attr_coords], Loader=FullLoader)
-    attrs_to_ignore = ['spacing', 'name', '_dummy_channel', '_image_scaling']
+    attrs_to_ignore = ['spacing', 'name', '_dummy_channel', '_image_scaling',
+                       '_single_channel']
     for attr in dict_without(attr_ref, attrs_to_ignore):
         if attr_ref[attr]:
             # one-entry axes are flattened when stored as netCDF attributes
@@ -195,9 +196,14 @@ def load(inf, lazy=False):
                     dummy_channel = yaml.safe_load(meta['_dummy_channel'])
                     dummy_channel = im.illumination[dummy_channel]
                     im = im.drop(dummy_channel.item(), illumination)
-                if '_illumination' in meta and illumination in im.dims:
-                    # load_image names the channels red, green, blue
-                    im[illumination] = yaml.safe_load(meta['_illumination'])
+                if '_illumination' in meta:
+                    labels = yaml.safe_load(meta['_illumination'])
+                    if illumination in im.dims:
+                        # load_image names the channels red, green, blue
+                        im[illumination] = labels
+                    else:
+                        # a one-entry axis is not stored in the pixels
+                        im = im.expand_dims({illumination: labels}, -1)
                 if '_image_scaling' in meta:
                     smin, smax = yaml.safe_load(meta['_image_scaling'])
                     if im.max() > im.min():
@@ -416,9 +422,10 @@ def _save_im(filename, im, depth=8):
         if im.name == None:
             im.name = os.path.splitext(os.path.split(filename)[-1])[0]
         metadat = pack_attrs(im, do_spacing=True)
-        if illumination in im.dims:
+        if (illumination in im.dims or
+                im.attrs.get('_single_channel') == illumination):
             # labels of the channels, which hp.load cannot get from the pixels
-            labels = im[illumination].values.tolist()
+            labels = np.atleast_1d(im[illumination].values).tolist()
             if '_dummy_channel' in im.attrs:
                 del labels[im.attrs['_dummy_channel']]
             metadat['_illumination'] = yaml.dump(labels)
